@@ -9,6 +9,7 @@ import operator
 import os
 
 from snakeoil.chksum import get_handler
+from snakeoil.fileutils import AtomicWriteFile
 from snakeoil.mappings import ImmutableDict
 
 from .. import gpg
@@ -129,7 +130,8 @@ class Manifest:
 
         _key_sort = operator.itemgetter(0)
 
-        excludes = frozenset(["CVS", ".svn", "Manifest"])
+        # the last one is the temporary file of the atomic write below (left behind by an interrupted run)
+        excludes = frozenset(["CVS", ".svn", "Manifest", ".update.Manifest"])
         aux, ebuild, misc = {}, {}, {}
         if not self.thin:
             filesdir = "/files/"
@@ -185,7 +187,9 @@ class Manifest:
         except OSError:
             pass
 
-        with open(self.path, "w") as handle:
+        # write to a temporary file and rename it over the Manifest, so that an
+        # interrupted regeneration leaves the old file intact
+        with AtomicWriteFile(self.path) as handle:
             handle.write(data)
         self._sourced = False
         return True
